@@ -17,10 +17,12 @@ namespace Genshi.San
 open Genshi Genshi.San.Spec
 
 mutual
-  /-- every DOCTYPE leaf of the (sanitized) forest is a literal an XML tokenizer reads back whole -/
+  /-- every DOCTYPE leaf of the (sanitized) forest is a literal an XML tokenizer reads back whole
+      (well quoted), and every XML declaration leaf one that holds no `?>` -/
   def treeDtQuoted : Node → Bool
     | .elem _ _ ks => forestDtQuoted ks
     | .leaf (.doctype n p s) => Reader.dtScan true none (Reader.doctypeContent n p s)
+    | .leaf (.xmlDecl v e s) => Reader.piSafe true false (Reader.xmlDeclContent v e s)
     | .leaf _ => true
   def forestDtQuoted : List Node → Bool
     | [] => true
@@ -32,6 +34,7 @@ def XExtra : Output.FEv → Prop
   | .start _ a => ∀ q ∈ a, Reader.attrValOkB q.2 = true
   | .empty _ a => ∀ q ∈ a, Reader.attrValOkB q.2 = true
   | .doctype n p s => Reader.dtScan true none (Reader.doctypeContent n p s) = true
+  | .xmlDecl v e s => Reader.piSafe true false (Reader.xmlDeclContent v e s) = true
   | _ => True
 
 theorem fAttrs_vals {a : AttrList} (h : ∀ b ∈ a, Reader.attrValOkB b.2 = true) :
@@ -67,7 +70,10 @@ mutual
       | text s f => simp [Output.treeF, Output.leafF] at hev; subst hev; trivial
       | comment c => simp [Output.treeF, Output.leafF] at hev; subst hev; trivial
       | pi t d => simp [Output.treeF, Output.leafF] at hev; subst hev; trivial
-      | xmlDecl v e s => simp [Output.treeF, Output.leafF] at hev; subst hev; trivial
+      | xmlDecl v e s =>
+        simp [Output.treeF, Output.leafF] at hev; subst hev
+        have hq' : Reader.piSafe true false (Reader.xmlDeclContent v e s) = true := by simpa [treeDtQuoted] using hq
+        exact hq'
       | startCdata => simp [Output.treeF, Output.leafF] at hev; subst hev; trivial
       | endCdata => simp [Output.treeF, Output.leafF] at hev; subst hev; trivial
       | start _ _ => simp [Output.treeF, Output.leafF] at hev
@@ -141,7 +147,7 @@ theorem fevGood_okX {cfg : Cfg} (hm : CfgMarkupOk cfg) (o : Output.Opts) {ev : O
       rw [h'.2] at this; cases this
   | doctype n p s => exact ⟨fun _ => hx, rfl⟩
   | comment _ => exact absurd h (by simp [FEvGood])
-  | xmlDecl _ _ _ => exact absurd h (by simp [FEvGood])
+  | xmlDecl _ _ _ => exact ⟨fun _ => hx, rfl⟩
   | startNs _ _ => exact absurd h (by simp [FEvGood])
   | endNs _ => exact absurd h (by simp [FEvGood])
   | startCdata => exact absurd h (by simp [FEvGood])
@@ -236,7 +242,15 @@ theorem xhtmlEvP_safe (hd : Genshi.Gen.SanClass.commentsDotall = true) {cfg : Cf
       · trivial
       · exact hfl x hx
   | comment _ => exact absurd hg (by simp [FEvGood])
-  | xmlDecl _ _ _ => exact absurd hg (by simp [FEvGood])
+  | xmlDecl v e s =>
+    intro x hx
+    simp only [Reader.xhtmlEvP] at hx
+    split at hx
+    · exact hr x hx
+    · simp only [List.mem_cons] at hx
+      rcases hx with rfl | hx
+      · trivial
+      · exact hfl x hx
   | startNs _ _ => exact absurd hg (by simp [FEvGood])
   | endNs _ => exact absurd hg (by simp [FEvGood])
   | startCdata => exact absurd hg (by simp [FEvGood])
